@@ -5,10 +5,11 @@ V = os.path.dirname(os.path.dirname(os.path.abspath(__file__)))
 k = json.load(open(V + "/known_findings.json"))
 out = []
 _ms = [json.load(open(d + "/meta.json")) for d in glob.glob(V + "/seeded/*") if os.path.isdir(d)]
-_out = sum(1 for m in _ms if "assessment" in m)
+_obs = sum(1 for m in _ms if str(m.get("assessment", "")).startswith("OBSOLETE"))
+_out = sum(1 for m in _ms if "assessment" in m) - _obs
 _sib = sum(1 for m in _ms if "by C" in str(m.get("check_result_quick")) and "assessment" not in m)
 _hist = sum(1 for m in _ms if "history" in m and "assessment" not in m and "by C" not in str(m.get("check_result_quick")))
-STATS = "%d in six waves: %d caught at once, %d after strengthening the check as described in their history line, %d caught by a sibling property's check, %d judged outside the statement and deliberately not asserted" % (len(_ms), len(_ms) - _out - _sib - _hist, _hist, _sib, _out)
+STATS = "%d in six waves: %d caught at once, %d after strengthening the check as described in their history line, %d caught by a sibling property's check, %d judged outside the statement and deliberately not asserted, %d made obsolete by a later repair of the code they relied on" % (len(_ms), len(_ms) - _out - _obs - _sib - _hist, _hist, _sib, _out, _obs)
 out.append("Repaired defects and open findings (from known_findings.json; one `fix:` commit per root cause in /repo):\n")
 out.append("| property | finding | status | commit | what |\n|---|---|---|---|---|")
 for e in sorted(k, key=lambda e: e["property"]):
@@ -22,7 +23,7 @@ for d in sorted(x for x in glob.glob(V + "/seeded/*") if os.path.isdir(x)):
     if "history" in m:
         r += " after strengthening"
     if "assessment" in m:
-        r = "not asserted (outside the statement)"
+        r = "obsolete (no longer breaks the property after a later fix)" if m["assessment"].startswith("OBSOLETE") else "not asserted (outside the statement)"
     out.append("| %s | %s | %s | %s |" % (os.path.basename(d), m.get("needs", "")[:170].replace("|", "/").replace("\n", " "), r, ", ".join(m.get("check_clauses", [])[:3])))
 out.append("")
 for d in sorted(x for x in glob.glob(V + "/seeded/*") if os.path.isdir(x)):
